@@ -315,6 +315,10 @@ func TestVerifC12(t *testing.T) {
 			ccs = append(ccs, cc{ref.B32(P.X), flip(ref.B32(P.Y), 255), "coordinate-class-off-curve:" + scls[i]})
 		}
 	}
+	// points that are not on the curve but whose curve-equation defect sits in one limb / one byte only
+	for _, np := range ref.NearCurvePoints(rng.Bytes, hk.N(2, 8)) {
+		ccs = append(ccs, cc{ref.B32(np.X), ref.B32(np.Y), "off-curve:" + np.Class})
+	}
 	for _, c := range ccs {
 		want := len(c.x) == 32 && len(c.y) == 32 && ref.OnCurve(ref.Int(c.x), ref.Int(c.y))
 		var got bool
